@@ -15,9 +15,9 @@ import (
 	"unsafe"
 )
 
-func chanPtr[T any](ch chan T) uintptr       { return uintptr(*(*unsafe.Pointer)(unsafe.Pointer(&ch))) }
-func sendPtr[T any](ch chan<- T) uintptr     { return uintptr(*(*unsafe.Pointer)(unsafe.Pointer(&ch))) }
-func recvPtr[T any](ch <-chan T) uintptr     { return uintptr(*(*unsafe.Pointer)(unsafe.Pointer(&ch))) }
+func chanPtr[T any](ch chan T) uintptr   { return uintptr(*(*unsafe.Pointer)(unsafe.Pointer(&ch))) }
+func sendPtr[T any](ch chan<- T) uintptr { return uintptr(*(*unsafe.Pointer)(unsafe.Pointer(&ch))) }
+func recvPtr[T any](ch <-chan T) uintptr { return uintptr(*(*unsafe.Pointer)(unsafe.Pointer(&ch))) }
 
 // ---- goroutines -----------------------------------------------------------
 
@@ -28,8 +28,8 @@ func Go0(f func()) {
 	}
 	spawn(f)
 }
-func Go1[A any](f func(A), a A)                { Go0(func() { f(a) }) }
-func Go2[A, B any](f func(A, B), a A, b B)      { Go0(func() { f(a, b) }) }
+func Go1[A any](f func(A), a A)            { Go0(func() { f(a) }) }
+func Go2[A, B any](f func(A, B), a A, b B) { Go0(func() { f(a, b) }) }
 func Go3[A, B, C any](f func(A, B, C), a A, b B, c C) {
 	Go0(func() { f(a, b, c) })
 }
